@@ -67,12 +67,14 @@ bool well_formed(const Case &c) {
     for (auto &o : c.ops) {
         bool first = (o.kind == OP_GSSV) || (o.kind == OP_GSSVX && o.x.fact != 2 && !o.x.refact) || (o.kind == OP_ROUTE && !o.x.refact);
         if (o.kind == OP_GSSVX && o.x.lwork == -1) continue;
-        if (first) { if (have && o.kind != OP_GSSV) return false; have = true; route = o.kind == OP_ROUTE; continue; }
+        if (first) { if (have && o.kind != OP_GSSV) return false; have = true; if (o.kind == OP_ROUTE) route = true; continue; }
         if (o.kind == OP_ROUTE_FINALIZE) { if (have) return false; route = false; continue; }
         if (!have) return false;
         if (o.kind == OP_DESTROY) have = false;
         (void)route;
     }
+    // leak accounting needs histories that give everything back at the end
+    if ((c.profile == "leak" || c.profile == "carry") && (have || route)) return false;
     return true;
 }
 
@@ -101,9 +103,12 @@ MinResult minimise_and_write(Case c, const std::string &prop, const std::string 
     };
     int n0 = c.M.n, p0 = c.ops.empty() ? 0 : c.ops.back().x.nprocs; size_t ops0 = c.ops.size();
     // 2. drop operations (histories)
-    for (size_t i = best.ops.size(); i-- > 0 && best.ops.size() > 1;) {
-        Case cand = best; cand.ops.erase(cand.ops.begin() + (long)i);
-        if (well_formed(cand)) attempt(cand);
+    for (size_t win : {(size_t)1, (size_t)2, (size_t)3, (size_t)1}) {
+        for (size_t i = best.ops.size(); i-- > 0 && best.ops.size() > win;) {
+            if (i + win > best.ops.size()) continue;
+            Case cand = best; cand.ops.erase(cand.ops.begin() + (long)i, cand.ops.begin() + (long)(i + win));
+            if (!cand.ops.empty() && well_formed(cand)) attempt(cand);
+        }
     }
     // 3. drop faults
     for (size_t i = 0; i < best.ops.size(); ++i) {
